@@ -14,6 +14,7 @@ def dispatch (line : String) : String :=
   | "fund" :: args => handleFund args
   | "vattrs" :: args => handleVattrs args
   | "lex" :: args => handleLex args
+  | "kw" :: args => handleKw args
   | "yshape" :: args => handleYshape args
   | "parsestr" :: args => handleParseStr args
   | _ => "bad-op"
